@@ -582,3 +582,124 @@ Corollary k_prefixes_unrank_refines : forall q mc first_n memo j v memo',
   k_prefixes_of_permutations_with_copies q mc first_n j memo = Ok (v, memo') ->
   (exists w, v = KPerm w /\ prefix_unrank (cs_of q mc) first_n j = Some w) /\ memo_valid q mc memo'.
 Proof. intros q mc first_n memo j v memo'. apply kprefix_unrank_refines. Qed.
+
+(** * The memoised recursion [recur_count] *)
+
+Definition rc_loop (f : nat) (s need q m : Z) : nat -> Z -> Z -> memo_t -> res (Z * memo_t) :=
+  fix loop (cnt : nat) (v combos : Z) (memo : memo_t) : res (Z * memo_t) :=
+    match cnt with
+    | O => Ok (combos, memo)
+    | S cnt' =>
+      r <- recur_count f (s + 1) (need - v) q m memo ;;
+      ci <- count_interleavings v need ;;
+      loop cnt' (v + 1) (combos + fst r * ci) (snd r)
+    end.
+
+Lemma rc_loop_S : forall f s need q m k v combos memo,
+  rc_loop f s need q m (S k) v combos memo =
+  (r <- recur_count f (s + 1) (need - v) q m memo ;;
+   ci <- count_interleavings v need ;;
+   rc_loop f s need q m k (v + 1) (combos + fst r * ci) (snd r)).
+Proof. reflexivity. Qed.
+
+Lemma recur_count_S : forall f s need q m memo,
+  recur_count (S f) s need q m memo =
+  if need =? 0 then Ok (1, memo)
+  else if s <? q then
+    if (q - s) * m >=? need then
+      match memo_truthy (s, need) memo with
+      | Some combos => Ok (combos, memo)
+      | None =>
+        r <- rc_loop f s need q m (Z.to_nat (Z.min m need + 1)) 0 0 memo ;;
+        Ok (fst r, memo_set (s, need) (fst r) (snd r))
+      end
+    else Ok (0, memo)
+  else Ok (0, memo).
+Proof. reflexivity. Qed.
+
+Lemma params_ok_uniform : forall q m, 0 <= q -> 0 <= m -> params_ok q (Uniform m).
+Proof.
+  intros q m Hq Hm. split; cbn [cs_of].
+  - rewrite repeat_length. lia.
+  - apply Forall_forall. intros x Hx. apply repeat_spec in Hx. lia.
+Qed.
+
+Lemma recur_count_sim : forall q m, 0 <= q -> 0 <= m ->
+  forall fuel i need memo v memo',
+  (i <= Z.to_nat q)%nat -> 0 <= need -> memo_valid q (Uniform m) memo ->
+  recur_count fuel (Z.of_nat i) need q m memo = Ok (v, memo') ->
+  v = cnt (skipn i (repeat m (Z.to_nat q))) need /\ memo_valid q (Uniform m) memo'.
+Proof.
+  intros q m Hq Hm.
+  pose proof (params_ok_uniform q m Hq Hm) as Hpar. destruct Hpar as [Hlq Hnn]. cbn [cs_of] in Hlq, Hnn.
+  set (cs := repeat m (Z.to_nat q)) in *.
+  assert (Hlen : length cs = Z.to_nat q) by (unfold cs; apply repeat_length). clear Hlq.
+  induction fuel as [|f IH]; intros i need memo v memo' Hi Hneed Hval Hrun; [discriminate|].
+  rewrite recur_count_S in Hrun.
+  assert (Hsuf : nonneg (skipn i cs)) by (apply Forall_skipn; exact Hnn).
+  destruct (need =? 0) eqn:En.
+  { inversion Hrun; subst v memo'. assert (need = 0) by lia. subst need.
+    rewrite cnt_zero by exact Hsuf. split; [reflexivity|exact Hval]. }
+  destruct (Z.of_nat i <? q) eqn:Eq.
+  2:{ inversion Hrun; subst v memo'. split; [|exact Hval].
+      rewrite skipn_all2 by lia. rewrite cnt_nil, En. reflexivity. }
+  destruct ((q - Z.of_nat i) * m >=? need) eqn:Ea.
+  2:{ inversion Hrun; subst v memo'. split; [|exact Hval]. symmetry. apply cnt_short; [exact Hsuf|lia|].
+      unfold cs. rewrite skipn_repeat, zsum_repeat.
+      replace (Z.of_nat (Z.to_nat q - i)) with (q - Z.of_nat i) by lia. lia. }
+  assert (Hil : (i < length cs)%nat) by lia.
+  pose proof (skipn_nth_cons cs i Hil) as Hsk.
+  assert (Hc : nth i cs 0 = m) by (unfold cs; apply nth_repeat_lt; lia).
+  rewrite Hc in Hsk. set (tl := skipn (S i) cs) in *.
+  destruct (memo_truthy (Z.of_nat i, need) memo) as [mv|] eqn:Em.
+  { inversion Hrun; subst v memo'. split; [|exact Hval].
+    apply memo_truthy_some in Em. destruct Em as [Hg _].
+    pose proof (Hval _ _ _ Hg ltac:(lia) ltac:(lia)) as Hg'. rewrite Nat2Z.id in Hg'. exact Hg'. }
+  assert (Hloop : forall k v0 combos memo0 r,
+            memo_valid q (Uniform m) memo0 -> 0 <= v0 -> v0 + Z.of_nat k <= need + 1 ->
+            rc_loop f (Z.of_nat i) need q m k v0 combos memo0 = Ok r ->
+            fst r = cnt_loop tl need k v0 combos /\ memo_valid q (Uniform m) (snd r)).
+  { induction k as [|k IHk]; intros v0 combos memo0 r Hv0 Hv0n Hk Hr.
+    - cbn [rc_loop] in Hr. inversion Hr; subst r. cbn [fst snd cnt_loop]. split; [reflexivity|exact Hv0].
+    - rewrite rc_loop_S in Hr.
+      replace (Z.of_nat i + 1) with (Z.of_nat (S i)) in Hr by lia.
+      destruct (recur_count f (Z.of_nat (S i)) (need - v0) q m memo0) as [[x mx]|e] eqn:Erc;
+        cbn [bind] in Hr; [|discriminate].
+      apply IH in Erc; [|lia|lia|exact Hv0]. destruct Erc as [Hx Hmx]. fold tl in Hx.
+      rewrite count_interleavings_ok in Hr by lia. cbn [bind fst snd] in Hr.
+      apply IHk in Hr; [|exact Hmx|lia|lia].
+      rewrite cnt_loop_S. rewrite <- Hx.
+      replace (combos + binomZ need v0 * x) with (combos + x * binomZ need v0) by ring. exact Hr. }
+  destruct (rc_loop f (Z.of_nat i) need q m (Z.to_nat (Z.min m need + 1)) 0 0 memo) as [r|e] eqn:El;
+    cbn [bind] in Hrun; [|discriminate].
+  apply Hloop in El; [|exact Hval|lia|lia]. destruct El as [Hf Hm'].
+  inversion Hrun; subst v memo'.
+  assert (Hv : fst r = cnt (skipn i cs) need) by (rewrite Hsk, cnt_cons; exact Hf).
+  split; [exact Hv|]. apply memo_valid_set; [exact Hm'|]. cbn [cs_of]. rewrite Nat2Z.id. exact Hv.
+Qed.
+
+Theorem recur_count_refines : forall q m first_n memo fuel v memo',
+  0 <= q -> 0 <= m -> 0 <= first_n -> memo_valid q (Uniform m) memo ->
+  recur_count fuel 0 first_n q m memo = Ok (v, memo') ->
+  v = cnt (repeat m (Z.to_nat q)) first_n /\ memo_valid q (Uniform m) memo'.
+Proof.
+  intros q m first_n memo fuel v memo' Hq Hm Hn Hval Hrun.
+  apply (recur_count_sim q m Hq Hm fuel 0%nat first_n memo v memo' ltac:(lia) Hn Hval Hrun).
+Qed.
+
+Corollary recur_count_prefixes_refines : forall q m first_n memo v memo',
+  0 <= q -> 0 <= m -> 0 <= first_n -> memo_valid q (Uniform m) memo ->
+  recur_count_prefixes_of_permutations_with_copies q m first_n memo = Ok (v, memo') ->
+  v = cnt (repeat m (Z.to_nat q)) first_n /\ memo_valid q (Uniform m) memo'.
+Proof. intros q m first_n memo v memo'. apply recur_count_refines. Qed.
+
+(** the hypotheses are satisfiable, the empty table is valid *)
+Example params_ok_example : params_ok 3 (Counters [2; 1; 2]) /\ memo_valid 3 (Counters [2; 1; 2]) [].
+Proof. split; [split; [reflexivity|repeat constructor; lia]|apply memo_valid_nil]. Qed.
+
+Print Assumptions kprefix_count_refines.
+Print Assumptions kprefix_unrank_refines.
+Print Assumptions recur_count_refines.
+Print Assumptions k_prefixes_count_refines.
+Print Assumptions k_prefixes_unrank_refines.
+Print Assumptions recur_count_prefixes_refines.
